@@ -2,6 +2,7 @@ package harness
 
 import (
 	"math/rand"
+	"runtime"
 	"os"
 	"strconv"
 	"strings"
@@ -22,6 +23,10 @@ func TestNLE(t *testing.T) {
 	modes := os.Getenv("NLE_MODE")
 	if modes == "" {
 		t.Skip("NLE_MODE not set")
+	}
+	if os.Getenv("NLE_PARALLEL") == "" {
+		// deterministic hand-off between goroutines inside a synctest bubble: one goroutine runs until it blocks
+		runtime.GOMAXPROCS(1)
 	}
 	seed := envInt("NLE_SEED", 1)
 	n := int(envInt("NLE_N", 1000))
